@@ -35,8 +35,9 @@ ASSUMPTIONS = [
     'a property package is modelled as the list of its CAS numbers; `chemicals is other_chemicals` is equality of package ids; '
     'chemical groups / aliases shared between packages are not generated',
     'sparse rows are modelled by their dense image; stored zeros do not occur on the dyadic alphabet (C09 covers the sparse invariants)',
-    'streams own their rows: phase views (ms["l"]), flow proxies and linked streams are not generated; aliasing is limited to '
-    'the same stream appearing in several roles (receiver among the inlets, feed as outlet, source as destination)',
+    'phase views ms[p] are operands of separate_out (the stream taken out) and of mix_from (inlets), including views of the '
+    'receiver itself; they are read-only there and modelled as the row read before the write.  Flow proxies, linked streams and '
+    'views as receivers / outlets / copy operands are not generated; other aliasing is the same stream in several roles',
     'the model describes the code with fixes_proposed/C01-1..C01-8, C10-2 and C12-1 applied; until they are committed the '
     'check reports the corresponding failing inputs; likewise fixes_proposed/C01-9..C01-14 (the six former known findings)',
     'MultiStream.copy_flow refuses a multi-phase source with another phase tuple (ValueError, like its same-chemicals '
@@ -85,6 +86,25 @@ def swapc(p):
 
 def F(x):
     return Fraction(float(x))
+
+
+def parse_refs(t):
+    """operand tokens: `3` = stream 3, `3.g` = the phase view S[3]['g']"""
+    return [] if t in ('-', '()') else t.split(',')
+
+
+def entry(before, tok):
+    """snapshot entry of an operand token; None when a phase view does not exist (the call raises UndefinedPhase)"""
+    if '.' not in tok: return before[int(tok)]
+    j, p = tok.split('.'); pb = before[int(j)]
+    if not pb['multi']:
+        return pb if p.lower() == pb['rows'][0][0].lower() else None
+    phases = [q for q, _ in pb['rows']]
+    q = p if p in phases else (swapc(p) if swapc(p) in phases else None)
+    if q is None: return None
+    row = dict(pb['rows'])[q]
+    return {'multi': False, 'pkg': pb['pkg'], 'rows': [(p, row)], 'tot': dict(zip(pb['pkg'], row)),
+            'nonneg': all(v >= 0 for v in row), 'empty': not any(row), 'view_of': int(j)}
 
 
 def parse_ids(t):
@@ -184,6 +204,12 @@ class Universe:
             s = tmo.MultiStream(None, thermo=th, phases=tuple(phases), **pf)
         self.streams.append(s)
 
+    def ref(self, tok):
+        if '.' in tok:
+            j, p = tok.split('.')
+            return self.streams[int(j)][p]
+        return self.streams[int(tok)]
+
     def apply(self, line):
         t = line.split(' ')
         op = t[0]
@@ -198,7 +224,7 @@ class Universe:
             order = [int(x) for x in t[5][1:].split(',')] if len(t) > 5 else None
             self.new_stream(int(t[1]), t[2], t[3], rows, order)
         elif op == 'mix':
-            S[int(t[1])].mix_from([S[i] for i in parse_ids(t[2])], energy_balance=False)
+            S[int(t[1])].mix_from([self.ref(x) for x in parse_refs(t[2])], energy_balance=False)
         elif op == 'sum':
             s = tmo.Stream.sum([S[i] for i in parse_ids(t[2])], None, self.pkgs[int(t[1])][0], energy_balance=False)
             S.append(s)
@@ -210,7 +236,7 @@ class Universe:
                 sp = np.array([float(Fraction(x)) for x in t[5].split(',')])
             S[int(t[1])].split_to(S[int(t[2])], S[int(t[3])], sp, energy_balance=False)
         elif op == 'sep':
-            S[int(t[1])].separate_out(S[int(t[2])], energy_balance=False)
+            S[int(t[1])].separate_out(self.ref(t[2]), energy_balance=False)
         elif op == 'copy':
             if t[3] == '*': ids = ...
             elif t[3].startswith('='): ids = NAMES[int(t[3][1:])]
@@ -263,34 +289,39 @@ def oracle(U, line, before, exc):
         return U.totals(S[i])
 
     if op in ('mix', 'sum'):
-        ins = parse_ids(t[2])
+        toks = parse_refs(t[2])
+        E = [entry(before, x) for x in toks]
+        if any(e is None for e in E): return None          # a phase view that does not exist: UndefinedPhase is the answer
         if op == 'mix':
             r = int(t[1]); rb = before[r]; rlist = rb['pkg']; rmulti = rb['multi']
             rphases = [p for p, _ in rb['rows']]
         else:
             r = len(before); rlist = U.pkgs[int(t[1])][1]; rmulti = False; rphases = ['l']
         rpk = set(rlist)
-        if not all(before[i]['nonneg'] for i in ins): return None
-        live = [i for i in ins if not before[i]['empty']]
-        other = any(before[i]['pkg'] is not rlist for i in live)
-        newph = rmulti and any(not resolvable(rphases, p) for i in live for p, _ in before[i]['rows'])
+        if not all(e['nonneg'] for e in E): return None
+        live = [e for e in E if not e['empty']]
+        other = any(e['pkg'] is not rlist for e in live)
+        newph = rmulti and any(not resolvable(rphases, p) for e in live for p, _ in e['rows'])
         if rmulti and len(live) == 1: cfg = 'M<-one-nonempty-inlet'
         elif newph: cfg = 'M<-new-phase'
-        elif not rmulti and any(before[i]['multi'] and before[i]['pkg'] is not rlist for i in live):
+        elif not rmulti and any(e['multi'] and e['pkg'] is not rlist for e in live):
             cfg = 'S<-M.other-package'
         else: cfg = ('M' if rmulti else 'S') + ('<-other-package' if other else '<-same-package')
-        inq = all(set(before[i]['pkg']) <= rpk for i in ins)
+        inq = all(set(e['pkg']) <= rpk for e in E)
         U.tags.add(f'in:mix:{cfg}')
-        nself = sum(1 for i in ins if op == 'mix' and i == r)
+        nself = sum(1 for x in toks if op == 'mix' and x == str(r))
         if nself: U.tags.add('in:mix:receiver-among-inlets' + ('-twice' if nself > 1 else ''))
+        if any('.' in x for x in toks):
+            U.tags.add('in:mix:phase-view-inlet')
+            if op == 'mix' and any(e.get('view_of') == r for e in live): U.tags.add('in:mix:view-of-the-receiver')
         U.tags.add(f'in:mix:{min(len(live), 3)}{"+" if len(live) >= 3 else ""}-nonempty-inlets')
-        if rmulti and any(not (p in rphases) and resolvable(rphases, p) for i in live for p, _ in before[i]['rows']):
+        if rmulti and any(not (p in rphases) and resolvable(rphases, p) for e in live for p, _ in e['rows']):
             U.tags.add('in:mix:case-variant-phase')
         if exc is not None:
             return raised(cfg) if inq else None
         after = now(r)
-        for c in set(itertools.chain(after, *[before[i]['tot'] for i in ins])):
-            want = sum((before[i]['tot'].get(c, 0) for i in ins), Fraction(0))
+        for c in set(itertools.chain(after, *[e['tot'] for e in E])):
+            want = sum((e['tot'].get(c, 0) for e in E), Fraction(0))
             if after.get(c, 0) != want:
                 return (f'mix:{cfg}:totals', f'after `{line}` chemical {NAMES[c]}: receiver holds {after.get(c, 0)} but the inlets sum to {want}')
         return None
@@ -341,8 +372,9 @@ def oracle(U, line, before, exc):
         return None
 
     if op == 'sep':
-        x, y = int(t[1]), int(t[2])
-        xb, yb = before[x], before[y]
+        x = int(t[1])
+        xb, yb = before[x], entry(before, t[2])
+        if yb is None: return None                         # a phase view that does not exist
         if not (xb['nonneg'] and yb['nonneg']): return None
         if any(xb['tot'].get(c, 0) < v for c, v in yb['tot'].items()): return None      # y is not contained in x
         other = xb['pkg'] is not yb['pkg']
@@ -355,6 +387,8 @@ def oracle(U, line, before, exc):
             cfg = ('M' if xb['multi'] else 'S') + '-' + ('M' if yb['multi'] else 'S') + ('.other-package' if other else '') \
                 + ('.same-phases' if xb['multi'] and yb['multi'] and xph == [p for p, _ in yb['rows']] else '')
         U.tags.add(f'in:sep:{cfg}')
+        if '.' in t[2]:
+            U.tags.add('in:sep:phase-view' + ('-of-itself' if yb.get('view_of') == x and not yb['empty'] else ''))
         if exc is not None:
             return raised(cfg)
         after = now(x)
@@ -606,6 +640,24 @@ def split_arg(rng, n):
     return 'v ' + ','.join(fr(rng.choice([Fraction(0), Fraction(1), Fraction(1, 2), Fraction(1, 4), Fraction(5, 8)])) for _ in range(n))
 
 
+def view_tok(rng, U, i, p_variant=0.12):
+    """a phase view of the multi-phase stream i: mostly one of its phases, sometimes the other case / a missing phase"""
+    ph = U.streams[i].phases
+    p = rng.choice(ph)
+    if rng.random() < p_variant:
+        p = rng.choice([swapc(p), rng.choice(PHASES)])
+        if p not in PHASES: p = rng.choice(PHASES)          # 'G' is not a phase
+    return f'{i}.{p}'
+
+
+def with_views(rng, U, idxs, prob):
+    out = []
+    for i in idxs:
+        if U.is_multi(U.streams[i]) and rng.random() < prob: out.append(view_tok(rng, U, i))
+        else: out.append(str(i))
+    return out
+
+
 def gen_op(rng, U):
     S = U.streams
     n = len(S)
@@ -621,7 +673,12 @@ def gen_op(rng, U):
         pool = good if (good and rng.random() < 0.93) else idx
         ins = [rng.choice(pool) for _ in range(k)]
         if k and rng.random() < 0.3: ins[rng.randrange(k)] = r
-        return [f'mix {r} {",".join(map(str, ins)) if ins else "-"}']
+        toks = with_views(rng, U, ins, 0.25)
+        # a view of the receiver labelled with the other case of one of its phases is not generated: when the same call
+        # also expands the receiver's phases, MaterialIndexer.mix_from clears the row before it reads it (reported, not checked)
+        toks = [x if not (x.startswith(f'{r}.') and x.split('.')[1] not in S[r].phases) else f'{r}.{rng.choice(S[r].phases)}'
+                for x in toks]
+        return [f'mix {r} {",".join(toks) if toks else "-"}']
     if kind == 'sum':
         p = rng.randrange(len(U.pkgs))
         k = rng.choice([0, 1, 2, 2, 3])
@@ -655,6 +712,12 @@ def gen_op(rng, U):
         return [f'split {f} {a} {b} {split_arg(rng, len(U.pkg_of(S[f])))}']
     if kind == 'sep':
         x = rng.choice(idx); y = rng.choice(idx)
+        multi = [i for i in idx if U.is_multi(S[i])]
+        if multi and rng.random() < 0.4:
+            # one phase of a multi-phase stream separated out of that stream (or of another one)
+            y = rng.choice(multi)
+            if rng.random() < 0.7: x = y
+            return [f'sep {x} {view_tok(rng, U, y)}']
         return [f'sep {x} {y}']
     if kind == 'sepmix':
         # the pattern of the property: mix a and b into r, then separate b out again
@@ -663,7 +726,8 @@ def gen_op(rng, U):
         good = [i for i in idx if set(U.pkg_of(S[i])) <= rp and i != r]
         if len(good) < 1: return [f'sep {r} {r}']
         a = rng.choice(good); b = rng.choice(good)
-        return [f'mix {r} {a},{b}', f'sep {r} {b}']
+        tb = with_views(rng, U, [b], 0.3)[0]
+        return [f'mix {r} {a},{tb}', f'sep {r} {tb}']
     if kind == 'copy':
         multi = [i for i in idx if U.is_multi(S[i])]
         if multi and (not single or rng.random() < 0.4):
@@ -779,11 +843,20 @@ def grid_cases(rng):
             for big in (False, True):
                 for variant in ('two-packages', 'entry-order', 'one-op', 'sep', 'split'):
                     cases.append(('remap', rk, ik, big, variant))
+    # ---- phase views as operands: one phase separated out of its own multi-phase stream / of another stream / mixed
+    for nph in (2, 3, 4):
+        for which in ('own', 'own-variant', 'other', 'mix-own', 'mix-other', 'single'):
+            for rel in ('same', 'other'):
+                cases.append(('view', nph, which, rel))
     return cases
 
 
 def nstreams(ops):
     return sum(1 for l in ops if l.startswith('new'))
+
+
+def S_phase_tok(new_line):
+    return new_line.split(' ')[3]
 
 
 def make_grid_case(rng, spec):
@@ -866,6 +939,25 @@ def make_grid_case(rng, spec):
             b1, c1 = inlet(B, True), inlet(C, True)
             ops += [f'mix {r1} {b1},{c1}', f'split {c1} {r1} {r2} {split_arg(rng, len(pkgs[C]))}', f'mix {r2} {c1},{b1}',
                     f'split {b1} {r2} {r1} {split_arg(rng, len(pkgs[B]))}']
+    elif kind == 'view':
+        _, nph, which, rel = spec
+        xph = ''.join(rng.sample(PHASES, nph))
+        if which == 'own-variant':
+            base = rng.choice('ls'); xph = base + ''.join(rng.sample([p for p in 'gSL' if p.lower() != base], min(nph - 1, 2)))
+        xpkg = 0 if rel == 'same' else rng.choice([1, 2, 3, 4])
+        ops.append(gen_new(rng, pkgs, xpkg, 'M', xph, empty=False, dense=True))          # 0: the multi-phase stream
+        ops.append(gen_new(rng, pkgs, 0, rng.choice('SM'), None if rng.random() < 0.5 else None, empty=rng.random() < 0.3))  # 1
+        ops.append(gen_new(rng, pkgs, 0, 'M', xph, empty=False, dense=True))             # 2: a superset-package mixture
+        p = rng.choice(xph)
+        if which == 'own': ops += [f'sep 0 0.{p}', f'sep 0 0.{rng.choice(xph)}']
+        elif which == 'own-variant': ops += [f'sep 0 0.{swapc(xph[0])}', f'sep 0 0.{xph[1]}']
+        elif which == 'other': ops += [f'mix 2 2,0', f'sep 2 0.{p}', f'sep 2 0']
+        elif which == 'mix-own': ops += [f'mix 0 0.{p},1,0.{rng.choice(xph)}' if rel == 'same' else f'mix 0 0.{p},0.{rng.choice(xph)}',
+                                         f'mix 0 0,0.{p}']
+        elif which == 'mix-other': ops += [f'mix 1 0.{p},2.{rng.choice(xph)},1', f'mix 2 0.{p},0', f'sep 2 0.{p}']
+        else:
+            ops.append(gen_new(rng, pkgs, 0, 'S', rng.choice('ls'), empty=False))           # 3: single-phase, S[3]['l'] is S[3]
+            ops += [f'mix 1 3.{S_phase_tok(ops[-1])},0.{p}', f'sep 3 3.{S_phase_tok(ops[-1]).upper()}']
     elif kind == 'mcopy':
         _, sk, form, ex, php = spec
         dph = ''.join(rng.sample(PHASES, rng.choice([2, 3])))
@@ -949,6 +1041,8 @@ def corpus():
         Case(['pkg 0,1,2', 'new 0 M gl 0,0,0;0,0,0', 'new 0 M gls 0,0,0;0,0,0;0,5,0', 'copy 0 1 * 1 0 *']),
         Case(['pkg 0,1,2', 'new 0 M gl 0,0,0;0,0,0', 'new 0 S g 1,2,3', 'copy 0 1 1 1 1 l']),
         Case(['pkg 0,1,2', 'new 0 M gl 0,0,0;0,0,0', 'new 0 S l 1,2,3', 'copy 0 1 * 1 1 *']),
+        # one phase separated out of its own multi-phase stream, a view of the receiver among the inlets
+        Case(P + ['new 0 M gl 3,1,0,0,0,0;5,2,4,0,0,0', 'new 0 S l 1,0,0,0,0,0', 'sep 0 0.g', 'mix 0 0.l,1,0', 'sep 0 0.L', 'sep 1 1.L']),
         # the remap cache of one receiver package sees the same chemical set in two orders (two packages, then two entry orders)
         Case(['pkg 0,1,2', 'pkg 1,0', 'pkg 0,1', 'new 0 S l 0,0,0', 'new 0 S l 0,0,0', 'new 1 S l 2,5', 'new 1 S l 1,3',
               'new 2 S l 7,11', 'new 2 S l 13,17', 'mix 0 2,3', 'mix 1 4,5', 'mix 0 2,4,5', 'new 2 S l 2,3 o0,1',
